@@ -59,6 +59,7 @@ func installGlobals(s *Sim) {
 	s.yieldSeed = s.T.Seed ^ 0x5151
 	var ymu sync.Mutex
 	verifsync.SetYieldHook(func(site int) {
+		s.yieldTick()
 		d := s.yieldDensity
 		if d == 0 {
 			return
